@@ -90,3 +90,10 @@ def rules(t):
     out.append(shared.range_algebra(t, "C06.d"))
     out.append(W3.ack_lookup_range(t, "C06.e"))
     return out
+
+_rules_C06_w6 = rules
+def rules(t, *a, **kw):
+    import rules.wave6 as W6
+    out = _rules_C06_w6(t, *a, **kw)
+    out.append(W6.stale_index(t, "C06.f"))
+    return out
